@@ -61,7 +61,7 @@ class Simulation(object):
         else:
             self.statetracker = tracker
         self.statetracker.initialise(self)
-        self.times_dictionary = {self.statetracker.hash_state(): 0.0}
+        self.times_dictionary = {self.statetracker.hash_state(): Decimal("0") if self.exact else 0.0}
         self.times_to_deadlock = {}
         self.unchecked_blockage = False
 
